@@ -1,5 +1,6 @@
 import GoLevel.Model.Iter
 import GoLevel.Model.MergeHeap
+import GoLevel.Model.IterErr
 import GoLevel.Driver.Key
 /-! Line-protocol handler for the iterator layer (C02).  Stateful: `it new …` installs an iterator,
 the following `it first|last|next|prev|seek <key>` lines move it.
@@ -16,8 +17,16 @@ it new hmerged  … | it new hmergedx …                                      s
                                                                             the heap model (`Model/MergeHeap.lean`:
                                                                             `container/heap` transcribed); children may
                                                                             hold equal keys (real tie-breaking)
+it new emerged  <cmp> <strict 0|1> <nchild> (a <fail> <n> (<ikey> <val>)* | x <nblk> (<sep> <fail> <n> (<ikey> <val>)*)*)*
+                                                                            merged iterator over children that fail
+                                                                            (`Model/IterErr.lean`); a nested indexed
+                                                                            iterator has the same `strict`
+it new eindexed <cmp> <strict 0|1> <nblk> (<sep> <fail> <n> (<ikey> <val>)*)*   indexed iterator over blocks that fail
 it first | it last | it next | it prev | it seek <key>      ⇒  true <key> <val> | false nil nil
 ```
+`<fail>` is `-` (never fails), `c<k>` or `i<k>`: movement number `k` (from 0) of that child / of every data
+iterator made for that block fails with a corruption / an I/O error.  The answers of `emerged`/`eindexed` have
+two more fields: `Error()` as `ok|corrupted|io|released` and the number of error-callback (`errf`) calls so far.
 `<ikey>` is an encoded internal key; `seek` takes an internal key for merged/indexed, a user key for the
 DB iterators; `start`/`limit` are user keys.
 -/
@@ -31,6 +40,8 @@ inductive ItState
   | idx (c : UCmp) (x : IndexedIter)
   | flat (c : UCmp) (d : DBIter ArrIter)
   | layers (c : UCmp) (d : DBIter (MergedIter Node))
+  | eraw (c : UCmp) (m : EMerged ENode)
+  | eidx (c : UCmp) (x : EIndexed)
 
 abbrev P := StateT (List String) Option
 
@@ -78,6 +89,34 @@ def pLayer (c : UCmp) (start limit : Option IKey) : P Node := do
     pure (.idx (levelIter c ts start limit))
   else failure
 
+def pFail : P (Option (Nat × Err)) := do
+  let t ← tok
+  if t = "-" then pure .none
+  else
+    match t.toList with
+    | 'c' :: ds => do let k ← ((String.ofList ds).toNat? : Option Nat); pure (some (k, Err.corrupted))
+    | 'i' :: ds => do let k ← ((String.ofList ds).toNat? : Option Nat); pure (some (k, Err.io))
+    | _ => failure
+
+def pBool : P Bool := do
+  let t ← tok
+  if t = "1" then pure true else if t = "0" then pure false else failure
+
+def pEBlocks : P (List EIdxChild) := do
+  let n ← pNat
+  pRep (do let s ← pIKey; let f ← pFail; let es ← pEntries; pure ⟨s, es, f⟩) n
+
+def pENode (c : UCmp) (strict : Bool) : P ENode := do
+  let t ← tok
+  if t = "a" then do
+    let f ← pFail
+    let es ← pEntries
+    pure (.arr (FailChild.new (ArrIter.new c es .none .none) f))
+  else if t = "x" then do
+    let bs ← pEBlocks
+    pure (.idx (EIndexed.new bs strict))
+  else failure
+
 def done {α : Type} (a : α) : P α := fun s => if s.isEmpty then some (a, []) else .none
 
 def pNew : P ItState := do
@@ -102,6 +141,15 @@ def pNew : P ItState := do
     let n ← pNat
     let ch ← pRep (pNodeX c) n
     done (.raw c (MergedIter.new ch))
+  else if kind = "emerged" then do
+    let strict ← pBool
+    let n ← pNat
+    let ch ← pRep (pENode c strict) n
+    done (.eraw c (EMerged.new ch strict))
+  else if kind = "eindexed" then do
+    let strict ← pBool
+    let bs ← pEBlocks
+    done (.eidx c (EIndexed.new bs strict))
   else if kind = "dbiter" then do
     let seq ← pNat
     let st ← pOptHex; let lm ← pOptHex
@@ -123,6 +171,12 @@ def showEntry : Option Entry → String
 def showPair : Option (Bytes × Bytes) → String
   | some (k, v) => s!"true {toHexField k} {toHexField v}"
   | .none => "false nil nil"
+
+def showErr : Option Err → String
+  | .none => "ok"
+  | some .corrupted => "corrupted"
+  | some .io => "io"
+  | some .released => "released"
 
 def parseCallI : List String → Option (Call IKey)
   | ["first"] => some .first
@@ -162,6 +216,16 @@ def handleIt (st : ItState) : List String → Option (ItState × String)
       let o := IndexedIter.ops c
       let x' := o.step cl x
       pure (.idx c x', showEntry (o.cur x'))
+    | .eraw c m => do
+      let cl ← parseCallI args
+      let o := EMerged.ops (ENode.ops c) c
+      let m' := o.toIterOps.step cl m
+      pure (.eraw c m', s!"{showEntry (o.cur m')} {showErr (o.err m')} {m'.errf.length}")
+    | .eidx c x => do
+      let cl ← parseCallI args
+      let o := EIndexed.ops c
+      let x' := o.toIterOps.step cl x
+      pure (.eidx c x', s!"{showEntry (o.cur x')} {showErr (o.err x')} {x'.errf.length}")
     | .flat c d => do
       let cl ← parseCallU args
       let d' := DBIter.step (ArrIter.ops c) c cl d
